@@ -777,7 +777,7 @@ fn check_glob_spans(rep: &Report, c: &mut Counters, text: &str) {
         Ok(Ok(g)) => {
             bump(c, "built", 1);
             check_capture_spans(rep, c, text, text, &g);
-            // after partitioning spans refer to the postfix expression
+            // after partitioning spans refer to the postfix expression (borrowed and owned)
             if let Ok((_, Some(post))) = guard(|| g.clone().partition()) {
                 let ptext = post.to_string();
                 if Glob::new(&ptext).is_ok() {
@@ -785,6 +785,14 @@ fn check_glob_spans(rep: &Report, c: &mut Counters, text: &str) {
                 }
                 else {
                     bump(c, "postfix_text_does_not_build", 1);
+                }
+            }
+            let owned = g.clone().into_owned();
+            check_capture_spans(rep, c, text, text, &owned);
+            if let Ok((_, Some(post))) = guard(|| owned.partition()) {
+                let ptext = post.to_string();
+                if Glob::new(&ptext).is_ok() {
+                    check_capture_spans(rep, c, text, &ptext, &post);
                 }
             }
         },
